@@ -284,7 +284,7 @@ proof! {
     fn c12_abi_f16() { let mut buf: [u8; N] = kani::any(); buf[0] = 0xf9; l1_float(&buf, 3); reach!(); }
 }
 
-//@ also=C13 tier=off timeout=3600 mem=14 bits=40 unwind=12 unwindset="memcmp=12" fns=echo_wasm_abi::canonical::dec_value,read_f,is_exact_int,can_fit_f16,enc_float,write_f32
+//@ also=C13 tier=quick timeout=1500 mem=14 bits=40 unwind=12 unwindset="memcmp=12" fns=echo_wasm_abi::canonical::dec_value,read_f,is_exact_int,can_fit_f16,enc_float,write_f32
 //@ bounds="head 0xfa with 4 and 5 following bytes (all 2^32 single-precision patterns)"
 //@ desc="ABI CBOR: f32 accepted => canonical (values that fit f16 or are integral are rejected, the rest re-encode as the same 5 bytes)"
 proof! {
@@ -662,4 +662,14 @@ proof! {
         max_len(0x9b, 0); max_len(0x9b, 1); max_len(0xbb, 0); max_len(0xbb, 1);
         reach!();
     }
+}
+
+//@ also=C13 tier=quick timeout=1500 mem=14 bits=64 unwind=12 unwindset="memcmp=12" fns=echo_wasm_abi::canonical::dec_value,read_f,is_exact_int,can_fit_f16,can_fit_f32,enc_float,write_f64
+//@ bounds="head 0xfb with exactly 8 following bytes (all 2^64 double-precision patterns)"
+//@ desc="ABI CBOR: f64 accepted => canonical (values that fit f16/f32 or are integral are rejected, the rest re-encode as the same 9 bytes)"
+proof! {
+    #[cfg_attr(kani, kani::stub(alloc::fmt::format, crate::stubs::fmt_format))]
+    #[cfg_attr(kani, kani::stub(half::binary16::arch::f16_to_f64, half::binary16::arch::f16_to_f64_fallback))]
+    #[cfg_attr(kani, kani::stub(half::binary16::arch::f64_to_f16, half::binary16::arch::f64_to_f16_fallback))]
+    fn c12_abi_f64() { let mut buf: [u8; N] = kani::any(); buf[0] = 0xfb; l1_float(&buf, 9); reach!(); }
 }
